@@ -123,7 +123,14 @@ func TestC12(t *testing.T) {
 	chain := coord.GetChain(tibctesting.GetChainID(0))
 	k := chain.App.TIBCKeeper.RoutingKeeper
 
+	var prev []string
 	run := func(rules []string, s, d, p string) {
+		// the previous case's rule set once more, on a branch of the state that is thrown away:
+		// a rule set that was never committed must not influence anything
+		if dctx, _ := chain.GetContext().CacheContext(); rep.Evaluations%3 == 0 {
+			_ = k.SetRoutingRules(dctx, prev)
+		}
+		prev = append([]string{}, rules...)
 		ctx, _ := chain.GetContext().CacheContext()
 		err := k.SetRoutingRules(ctx, rules)
 		setok := err == nil
